@@ -23,7 +23,7 @@ ASSUMPTIONS = ["termination restated as a step budget of 2e5 + 2e3*len(text) lin
                "texts declaring registers larger than 6 qubits, or whose loops unroll to more than 20000 statement executions, are parsed but not executed (resource use proportional to the program, not termination)",
                "ImportError is accepted only when the program names a pulse module and pulses are auto-loaded"]
 TIERS = {"quick": {"shards": 8, "budget_s": 400}, "thorough": {"shards": 16, "budget_s": 480}}
-REQUIRE = {"entry:runstr": 1500, "import-layout-histories": 30, "alternating-twin-parses": 400, "class:deep-nesting-from-deep-stack": 40, "hang-probes": 15, "calls": 20000, "class:random": 1000, "class:truncation": 2000, "class:mutant": 2000, "class:template": 200,
+REQUIRE = {"entry-points-compared-with-and-without-return_usepulses": 2000, "entry:runstr": 1500, "import-layout-histories": 30, "alternating-twin-parses": 400, "class:deep-nesting-from-deep-stack": 40, "hang-probes": 15, "calls": 20000, "class:random": 1000, "class:truncation": 2000, "class:mutant": 2000, "class:template": 200,
            "outcome:JaqalParseError": 2000, "outcome:JaqalError": 500, "outcome:ok": 500, "position-checked": 2000,
            "histories": 8, "history-steps": 300, "fresh-single-text-runs": 8, "illegal-character-texts": 200,
            "relative-import-probes": 1}
@@ -176,6 +176,12 @@ def call(entry, text, flags=None, budget=None):
     def work():
         if entry == "sexpr":
             return lib.parse_sexpr(text)
+        if entry == "sexpr+usepulses":
+            return lib._m("jaqalpaq.parser.parser").parse_to_sexpression(text, return_usepulses=True)
+        if entry == "header":
+            return lib.parse_header(text)
+        if entry == "header+usepulses":
+            return lib._m("jaqalpaq.parser.parser").parse_jaqal_string_header(text, return_usepulses=True)
         kw = {k: v for k, v in flags.items() if k in ("expand_macro", "expand_let", "expand_let_map", "return_usepulses")}
         kw["autoload_pulses"] = bool(flags.get("autoload"))
         if flags.get("native"):
@@ -344,6 +350,22 @@ def judge(case):
         info["pos_checked"] = True
         if not check_position(text, out[1]):
             fails.append(("parse-error-position", {"reported": out[1], "message": out[2], "text": text[:300]}))
+    if entry == "sexpr" and not fails:
+        # what an entry point reports does not depend on an option that only adds to what it returns: the S-expression and
+        # the header-only entry points with and without return_usepulses
+        info["option_pairs"] = 0
+        for a, b in (("sexpr", "sexpr+usepulses"), ("header", "header+usepulses")):
+            oa = out if a == "sexpr" else call(a, text, flags)[0]
+            ob = call(b, text, flags)[0]
+            info["option_pairs"] += 1
+            for nm, o_ in ((a, oa), (b, ob)):
+                if o_[0].startswith("other:") or o_[0] == "budget":
+                    fails.append(("wrong-exception:%s:%s" % (o_[0], nm), {"error": o_[2], "text": text[:300]}))
+                elif o_[0] == "JaqalParseError" and nm != "sexpr" and not check_position(text, o_[1]):
+                    fails.append(("parse-error-position:" + nm, {"reported": o_[1], "message": o_[2], "text": text[:300]}))
+            if (oa[0], oa[1]) != (ob[0], ob[1]):
+                fails.append(("outcome-depends-on-return_usepulses:" + a, {"without": oa[:2], "with": ob[:2], "text": text[:300]}))
+        # a text the S-expression entry point refuses for its syntax is refused by the full parser as well
     return out, fails, info
 
 
@@ -357,6 +379,7 @@ def process(ctx, case, cls):
     rec.count("calls")
     rec.count("class:" + cls)
     rec.count("entry:" + case["entry"])
+    rec.count("entry-points-compared-with-and-without-return_usepulses", info.get("option_pairs", 0))
     rec.count("outcome:" + out[0].split(":")[0])
     if ill:
         rec.count("illegal-character-texts")
